@@ -3,6 +3,7 @@ use std::collections::HashSet;
 use std::sync::{Arc, Barrier};
 
 use faststr::FastStr;
+use sonic_rs::JsonNumberTrait;
 use sonic_rs::{JsonContainerTrait, JsonValueTrait, LazyValue, OwnedLazyValue};
 
 use crate::core::{Case, Check, Ctx, GenParams, Tier};
@@ -15,6 +16,21 @@ const LAZY_DOC: &str = r#"{"s":"esc\n\"aped\" é 😀 tail","t":"plain"}"#;
 const LAZY_WANT: &str = "esc\n\"aped\" é 😀 tail";
 const OWNED_DOC: &str = r#"{"a":[1,"x\ty",{"k":null}],"b":"v\\w","c":{"d":[true]}}"#;
 
+const NUM_DOC: &str = "-12345.5e-3";
+const STR_DOC: &str = r#""e\tsc\"aped \u00e9""#;
+const STR_WANT: &str = "e\tsc\"aped \u{e9}";
+
+/// the document behind the shared OwnedLazyValue of a scenario
+fn owned_doc(name: &str) -> &'static str {
+    if name.starts_with("owned-num:") {
+        NUM_DOC
+    } else if name.starts_with("owned-str:") {
+        STR_DOC
+    } else {
+        OWNED_DOC
+    }
+}
+
 /// what one reader thread does; returns an error text when a result is wrong
 #[derive(Clone, Copy, Debug)]
 enum Act {
@@ -25,6 +41,11 @@ enum Act {
     OwnedGetB,
     OwnedCloneGet,
     OwnedAsObject,
+    NumF64,
+    NumNumber,
+    NumIntsThenClone,
+    StrAsStr,
+    StrCloneAsStr,
 }
 
 fn act_lazy(a: Act, lv: &LazyValue) -> Result<(), String> {
@@ -78,6 +99,47 @@ fn act_owned(a: Act, ov: &OwnedLazyValue) -> Result<(), String> {
             Some(3) => Ok(()),
             other => Err(format!("as_object().len() = {:?}", other)),
         },
+        Act::NumF64 => match ov.as_f64() {
+            Some(f) if f.to_bits() == (-12.3455f64).to_bits() => Ok(()),
+            other => Err(format!("as_f64 = {:?}", other)),
+        },
+        Act::NumNumber => match (ov.as_number().and_then(|n| n.as_f64()), ov.is_f64(), ov.as_raw_number().map(|r| r.as_str().to_string())) {
+            (Some(f), true, Some(r)) if f.to_bits() == (-12.3455f64).to_bits() && r == NUM_DOC => Ok(()),
+            other => Err(format!("as_number/is_f64/as_raw_number = {:?}", other)),
+        },
+        Act::NumIntsThenClone => {
+            if ov.as_i64().is_some() || ov.as_u64().is_some() {
+                return Err(format!("integer accessors on a float: {:?} {:?}", ov.as_i64(), ov.as_u64()));
+            }
+            let c = ov.clone();
+            let r = match c.as_f64() {
+                Some(f) if f.to_bits() == (-12.3455f64).to_bits() => Ok(()),
+                other => Err(format!("clone.as_f64 = {:?}", other)),
+            };
+            let s = sonic_rs::to_string(&c).unwrap_or_default();
+            drop(c);
+            if s != NUM_DOC {
+                return Err(format!("clone serialises to {:?}", s));
+            }
+            r
+        }
+        Act::StrAsStr => match ov.as_str() {
+            Some(s) if s == STR_WANT => Ok(()),
+            other => Err(format!("as_str = {:?}", other)),
+        },
+        Act::StrCloneAsStr => {
+            let c = ov.clone();
+            let r = match c.as_str() {
+                Some(s) if s == STR_WANT => Ok(()),
+                other => Err(format!("clone.as_str = {:?}", other)),
+            };
+            let s = sonic_rs::to_string(&c).unwrap_or_default();
+            drop(c);
+            if s != STR_DOC {
+                return Err(format!("clone serialises to {:?}", s));
+            }
+            r
+        }
         _ => Ok(()),
     }
 }
@@ -90,6 +152,9 @@ const SCENARIOS: &[(&str, bool, &[Act])] = &[
     ("owned:2-getters", false, &[Act::OwnedGetA, Act::OwnedGetB]),
     ("owned:getter+clone", false, &[Act::OwnedGetA, Act::OwnedCloneGet]),
     ("owned:3-mixed", false, &[Act::OwnedGetB, Act::OwnedCloneGet, Act::OwnedAsObject]),
+    ("owned-num:2-readers", false, &[Act::NumF64, Act::NumNumber]),
+    ("owned-num:3-readers-and-clone", false, &[Act::NumF64, Act::NumIntsThenClone, Act::NumNumber]),
+    ("owned-str:reader+clone-reader", false, &[Act::StrAsStr, Act::StrCloneAsStr]),
 ];
 
 #[cfg(feature = "hooks")]
@@ -112,7 +177,7 @@ fn run_scheduled_d(ctx: &mut Ctx, scen: usize, schedule: Vec<u8>, fail_budget: u
         sonic_rs::verif::set_hook(Some(sched.clone()));
         // the ledger window: creation of the shared value .. its drop
         before = ledger::snap();
-        let fs = FastStr::new(if lazy { LAZY_DOC } else { OWNED_DOC });
+        let fs = FastStr::new(if lazy { LAZY_DOC } else { owned_doc(name) });
         if lazy {
             let lv = sonic_rs::get_from_faststr(&fs, &["s"]).expect("valid doc");
             std::thread::scope(|s| {
@@ -145,7 +210,7 @@ fn run_scheduled_d(ctx: &mut Ctx, scen: usize, schedule: Vec<u8>, fail_budget: u
             }
             drop(lv);
         } else {
-            let ov: OwnedLazyValue = sonic_rs::from_str(OWNED_DOC).expect("valid doc");
+            let ov: OwnedLazyValue = sonic_rs::from_str(owned_doc(name)).expect("valid doc");
             std::thread::scope(|s| {
                 let hs: Vec<_> = (0..n)
                     .map(|i| {
@@ -170,7 +235,7 @@ fn run_scheduled_d(ctx: &mut Ctx, scen: usize, schedule: Vec<u8>, fail_budget: u
                 }
             });
             sonic_rs::verif::set_hook(None);
-            if sonic_rs::to_string(&ov).unwrap_or_default() != OWNED_DOC {
+            if sonic_rs::to_string(&ov).unwrap_or_default() != owned_doc(name) {
                 errors.push("after the race the value does not serialise to its source".into());
             }
             drop(ov);
@@ -217,7 +282,7 @@ fn run_free(ctx: &mut Ctx, seed: u64, nthreads: usize, iters: usize) {
         let scen = if iters == SCENARIOS.len() { it } else { r.below(SCENARIOS.len() as u64) as usize };
         let (name, lazy, acts) = SCENARIOS[scen];
         let barrier = Arc::new(Barrier::new(nthreads));
-        let fs = FastStr::new(if lazy { LAZY_DOC } else { OWNED_DOC });
+        let fs = FastStr::new(if lazy { LAZY_DOC } else { owned_doc(name) });
         if lazy {
             let lv = sonic_rs::get_from_faststr(&fs, &["s"]).expect("valid");
             std::thread::scope(|s| {
@@ -241,7 +306,7 @@ fn run_free(ctx: &mut Ctx, seed: u64, nthreads: usize, iters: usize) {
                 }
             });
         } else {
-            let ov: OwnedLazyValue = sonic_rs::from_str(OWNED_DOC).expect("valid");
+            let ov: OwnedLazyValue = sonic_rs::from_str(owned_doc(name)).expect("valid");
             std::thread::scope(|s| {
                 let hs: Vec<_> = (0..nthreads)
                     .map(|i| {
@@ -416,7 +481,7 @@ impl Check for C18 {
                 // one thread is enough to meet a spurious weak-CAS failure under Miri
                 for (name, lazy, acts) in SCENARIOS {
                     ctx.ops(1);
-                    let fs = FastStr::new(if *lazy { LAZY_DOC } else { OWNED_DOC });
+                    let fs = FastStr::new(if *lazy { LAZY_DOC } else { owned_doc(name) });
                     let mut errs = vec![];
                     if *lazy {
                         let lv = sonic_rs::get_from_faststr(&fs, &["s"]).expect("valid");
@@ -426,7 +491,7 @@ impl Check for C18 {
                             }
                         }
                     } else {
-                        let ov: OwnedLazyValue = sonic_rs::from_str(OWNED_DOC).expect("valid");
+                        let ov: OwnedLazyValue = sonic_rs::from_str(owned_doc(name)).expect("valid");
                         for a in acts.iter() {
                             if let Err(e) = act_owned(*a, &ov) {
                                 errs.push(e);
